@@ -963,9 +963,44 @@ func Backtracky(r *rand.Rand, alphabet []rune) *Grammar {
 			case 4:
 				e = Seq(Act(), term(), Un(KStar, term()))
 			default:
-				e = term()
+				switch r.Intn(3) {
+				case 0:
+					// a leaf rule that is nothing but a capture (no action, no rule call): "Number <- <[0-9]+>"
+					e = Un(KCapture, Un(KPlus, term()))
+				case 1:
+					e = Un(KCapture, term())
+				default:
+					e = term()
+				}
 			}
 			g.Rules = append(g.Rules, &Rule{Name: names[1+i], E: e})
+		}
+		// rules referenced exactly ONCE, as the direct operand of ! & ? * +, whose body can fail after it has consumed
+		// input and recorded tokens: -inline expands such a rule in place, without the save/restore a called rule has
+		if r.Intn(2) == 0 {
+			ns := 1 + r.Intn(2)
+			for k := 0; k < ns; k++ {
+				name := fmt.Sprintf("S%d", k)
+				var body *Expr
+				switch r.Intn(4) {
+				case 0:
+					body = Seq(term(), term())
+				case 1:
+					body = Seq(href(), term())
+				case 2:
+					body = Seq(Un(KCapture, term()), Act(), term())
+				default:
+					body = Seq(term(), Un(KNot, term()))
+				}
+				op := []Kind{KNot, KAnd, KQuery, KStar, KPlus, KNot, KStar}[r.Intn(7)]
+				use := Un(op, Ref(name))
+				if r.Intn(2) == 0 {
+					g.Rules[0].E = Seq(use, g.Rules[0].E)
+				} else {
+					g.Rules[0].E = Seq(g.Rules[0].E, use, Un(KQuery, term()))
+				}
+				g.Rules = append(g.Rules, &Rule{Name: name, E: body})
+			}
 		}
 		// make every helper reachable
 		used := map[string]bool{}
